@@ -540,8 +540,42 @@ Definition coa_step (fl : flags) (cfg : coacfg) (now : Z) (src bus : N) (raw : b
     end
   end.
 
+(* sendAuthWithFailover / sendAcctWithFailover with Retries = 1: the servers are tried in order, each over its
+   OWN radiusConn with its OWN secret; a server that hands nothing over (silent, or only non-verifying
+   datagrams) is followed by the next.  Per server: its secret, the request as written to its socket, and
+   the datagrams arriving on that socket. *)
+Definition server_try := (bytes * bytes * list bytes)%type.
+Definition try_server (fl : flags) (s : server_try) : option bytes :=
+  let '(secret, req, dgs) := s in
+  first_delivered fl secret (fst (cstep fl secret pending0 (CSend (nth 1 req 0) req))) dgs.
+Fixpoint failover (fl : flags) (servers : list server_try) : option bytes :=
+  match servers with
+  | [] => None
+  | s :: r => match try_server fl s with Some d => Some d | None => failover fl r end
+  end.
+Definition authenticate_failover (fl : flags) (extract : list attr -> list (bytes * bytes))
+           (servers : list server_try) : auth_result :=
+  match failover fl servers with Some d => auth_outcome extract d | None => AError end.
+(* sendAccounting: nil error iff an Accounting-Response (code 5) was handed over *)
+Definition accounting_failover (fl : flags) (servers : list server_try) : bool :=
+  match failover fl servers with
+  | Some d => match parse d with Some p => p_code p =? 5 | None => false end
+  | None => false
+  end.
+
+(* the bytes exchange must put on the wire for server [secret], given the observed request (whose random
+   authenticator / identifier / timestamp / hidden password are taken as they are): an Accounting-Request is
+   re-signed (Encode), a Message-Authenticator is recomputed — both under THIS connection's secret *)
+Definition expected_wire (secret req : bytes) : bytes :=
+  let r := if nth 0 req 0 =? 4
+           then set_at 4 req (md5 (firstn 4 req ++ zeros16 ++ skipn 20 req ++ secret)) else req in
+  refill_ma secret r.
+
 (* Authenticate with the provider's extractAttributes (no custom response mappings) *)
 Definition authenticate_radius (fl : flags) (secret req : bytes) (dgs : list bytes) : auth_result :=
   authenticate fl secret (extract_attributes []) req dgs.
+
+Definition authenticate_failover_radius (fl : flags) (servers : list server_try) : auth_result :=
+  authenticate_failover fl (extract_attributes []) servers.
 
 End Crypto.
